@@ -8,6 +8,9 @@
  * usage: vf_solve FILE [-a u|s] [-G i|a|c] [-o DIGITS] [-B BITS] [-i DIGITS] [-t f|d] [-b] [-r]
  *                      [-c] [-m] [-S a|r|l|u|d|i|o|R|I] [-D n|r|i|b] [-O c|b|g|gf|v|f] [-j N] [-p]
  *        -p : FILE is an inline expression given as text on the command line (like mpsolve -p)
+ *        -P N : set the packet cap s->max_pack (public context field) to N            (added for C03)
+ *        -T   : enable the library's debug log into a memory stream and print a compact event trace
+ *               (`EV <tag> [number]` lines: phase / packet / precision events) before META or SOLVE-ERR (C03)
  */
 #include <mps/mps.h>
 #include <stdio.h>
@@ -37,6 +40,45 @@ static void out_mpc (FILE *f, mpc_t c)
   out_mpf (f, mpc_Re (c)); fputc (' ', f); out_mpf (f, mpc_Im (c));
 }
 static void out_mpq (FILE *f, mpq_t q) { gmp_fprintf (f, "%Qd", q); }
+
+/* C03: compact event trace filtered out of the library's own debug log */
+static void emit_trace (FILE *f, const char *log, size_t len)
+{
+  static const struct { const char *needle; const char *tag; } K[] = {
+    { "Float phase ...", "uphase-f" }, { "DPE phase ...", "uphase-d" }, { "Starting MP phase", "uphase-m" },
+    { "MAIN: mp_loop: mpwp=", "umpwp" }, { "  MSOLVE: packet= ", "mpack" },
+    { "FSOLVE: call fstart", "fsolve" }, { "DSOLVE: call dpolzero", "dsolve" }, { "MSOLVE: call restart", "msolve" },
+    { "Packet ", "pack" },
+    { "Float: reached the maximum", "ferr" }, { "DPE: reached the maximum", "derr" },
+    { "Step of improvement, precision = ", "improve" },
+    { "Starting floating point iterations", "sga-f" }, { "Starting DPE iterations", "sga-d" },
+    { "Starting MP iterations", "sga-m" }, { "Called mps_secular_raise_precision", "sga-raise" },
+    { "Called mps_secular_switch_phase", "sga-switch" }, { "Stop conditions were satisfied", "sga-stop" },
+    { "Reached the maximum working precision", "uovermax" }, { "Reached the input precision", "uinputprec" },
+    { NULL, NULL } };
+  size_t i = 0;
+  while (i < len)
+    {
+      size_t j = i; int k;
+      while (j < len && log[j] != '\n') j++;
+      for (k = 0; K[k].needle; k++)
+        {
+          size_t nl = strlen (K[k].needle);
+          const char *hit = NULL; size_t t;
+          for (t = i; t + nl <= j; t++)
+            if (memcmp (log + t, K[k].needle, nl) == 0) { hit = log + t + nl; break; }
+          if (hit)
+            {
+              long v = -1; const char *q = hit;
+              while (q < log + j && (*q < '0' || *q > '9')) q++;
+              if (q < log + j) v = strtol (q, NULL, 10);
+              fprintf (f, "EV %s %ld\n", K[k].tag, v);
+              break;
+            }
+        }
+      i = j + 1;
+    }
+}
 
 static void dump_poly (FILE *f, mps_context *s, mps_polynomial *p)
 {
@@ -95,6 +137,8 @@ int main (int argc, char **argv)
   int explicit_alg = 0, nthreads = 0;
   char *obuf = NULL; size_t olen = 0;
   FILE *ostr = open_memstream (&obuf, &olen);
+  int trace = 0; long max_pack = -1;
+  char *lbuf = NULL; size_t llen = 0; FILE *lstr = NULL;
   FILE *f = stdout;
 
   for (i = 1; i < argc; i++)
@@ -115,6 +159,8 @@ int main (int argc, char **argv)
         case 'c': mps_context_set_crude_approximation_mode (s, true); break;
         case 'm': mps_context_set_avoid_multiprecision (s, true); break;
         case 'p': inl = 1; break;
+        case 'P': max_pack = atol (v); i++; break;
+        case 'T': trace = 1; break;
         case 'j': nthreads = atoi (v); mps_thread_pool_set_concurrency_limit (s, NULL, nthreads); s->n_threads = nthreads; i++; break;
         case 'S':
           switch (v[0])
@@ -176,11 +222,26 @@ int main (int argc, char **argv)
                                   MPS_ALGORITHM_STANDARD_MPSOLVE : MPS_ALGORITHM_SECULAR_GA);
   mps_context_set_starting_phase (s, phase);
   s->outstr = ostr;
+  if (max_pack >= 0)
+    s->max_pack = max_pack;
+  if (trace)
+    {
+      lstr = open_memstream (&lbuf, &llen);
+      s->logstr = lstr; s->DOLOG = true;
+      s->debug_level = MPS_DEBUG_INFO | MPS_DEBUG_FUNCTION_CALLS | MPS_DEBUG_PACKETS;
+    }
 
   dump_poly (f, s, poly);
   fflush (f);
 
   mps_mpsolve (s);
+
+  if (trace)
+    {
+      fflush (lstr);
+      emit_trace (f, lbuf, llen);
+      fprintf (f, "EVEND max_pack=%d max_it=%d mpwp_max=%ld loglen=%zu\n", s->max_pack, s->max_it, s->mpwp_max, llen);
+    }
 
   if (mps_context_has_errors (s))
     {
@@ -191,6 +252,10 @@ int main (int argc, char **argv)
            mps_context_get_degree (s), s->n, mps_context_get_zero_roots (s), (int)mps_context_get_over_max (s),
            (int)s->lastphase, s->output_config->prec, (int)s->output_config->goal, (int)s->output_config->search_set,
            mps_context_get_data_prec_max (s), s->mpwp);
+  fprintf (f, "ORDER");
+  for (i = 0; i < s->n; i++)
+    fprintf (f, " %d", s->order[i]);
+  fprintf (f, "\n");
   /* raw fields */
   for (i = 0; i < s->n; i++)
     {
@@ -257,5 +322,6 @@ int main (int argc, char **argv)
   mps_polynomial_free (s, poly);
   mps_context_free (s);
   fclose (ostr); free (obuf);
+  if (lstr) { fclose (lstr); free (lbuf); }
   return 0;
 }
